@@ -16,11 +16,11 @@ SPECS = [
     dict(name="off_use_terminal", qual="OffPolicyAlgorithm._store_transition", start=r"^if done\b", end=None, kind="test",
          inputs=[("done", "bool"), ("has_terminal_obs", "bool")],
          subst={"infos[i].get('terminal_observation') is not None": "has_terminal_obs"}),
-    dict(name="off_count", qual="OffPolicyAlgorithm.collect_rollouts", start=r"^self\.num_timesteps \+= ", end=r"^num_collected_steps \+= ",
+    dict(name="off_count", qual="OffPolicyAlgorithm.collect_rollouts", start=r"^self\.num_timesteps \S= ", end=r"^num_collected_steps \S= ",
          inputs=[("num_timesteps", "Z"), ("num_envs", "Z"), ("num_collected_steps", "Z")],
          subst={"self.num_timesteps": "num_timesteps", "env.num_envs": "num_envs"},
          outputs=[("num_timesteps", "Z"), ("num_collected_steps", "Z")]),
-    dict(name="off_episode_inc", qual="OffPolicyAlgorithm.collect_rollouts", start=r"^num_collected_episodes \+= ", end=None,
+    dict(name="off_episode_inc", qual="OffPolicyAlgorithm.collect_rollouts", start=r"^num_collected_episodes \S= ", end=None,
          inputs=[("num_collected_episodes", "Z")], outputs=[("num_collected_episodes", "Z")]),
     dict(name="off_learn_guard", qual="OffPolicyAlgorithm.learn", start=r"^while .*total_timesteps", end=None, kind="test",
          inputs=[("num_timesteps", "Z"), ("total_timesteps", "Z")], subst={"self.num_timesteps": "num_timesteps"}),
@@ -28,7 +28,7 @@ SPECS = [
          inputs=[("num_collected_steps", "Z"), ("frequency", "Z")], subst={"train_freq.frequency": "frequency"}),
     dict(name="off_more_episode", file=_UT, qual="should_collect_more_steps", start=r"^return .*num_collected_episodes", end=None, kind="expr", ret="bool",
          inputs=[("num_collected_episodes", "Z"), ("frequency", "Z")], subst={"train_freq.frequency": "frequency"}),
-    dict(name="off_sde_guard", qual="OffPolicyAlgorithm.collect_rollouts", start=r"^if self\.use_sde and self\.sde_sample_freq\b", end=None, kind="test",
+    dict(name="off_sde_guard", qual="OffPolicyAlgorithm.collect_rollouts", start=r"^if .*self\.sde_sample_freq\b", end=None, kind="test",
          inputs=[("use_sde", "bool"), ("sde_sample_freq", "Z"), ("num_collected_steps", "Z")],
          subst={"self.use_sde": "use_sde", "self.sde_sample_freq": "sde_sample_freq"}),
     dict(name="off_sde_start_guard", qual="OffPolicyAlgorithm.collect_rollouts", start=r"^if self\.use_sde:$", end=None, kind="test",
